@@ -5,6 +5,6 @@ cd /verif
 b=$1; shift
 git merge -q $b -m "Merge branch $b" || { echo MERGE-CONFLICT; git status --short | grep '^UU\|^AA' ; exit 1; }
 python3 tools/gen_manifest.py | grep -v conda
-(cd lean && lake build 2>&1 | grep -v "^✔\|^ℹ\|^⚠" | tail -5)
+(cd lean && lake build > /tmp/merge_build.log 2>&1 || { grep -E "error" /tmp/merge_build.log | head -10; echo BUILD-FAILED; exit 1; }; tail -1 /tmp/merge_build.log)
 for p in "$@"; do for s in 0 1; do VERIF_SEED=$s ./check $p 2>&1 | grep -v conda | tail -3; done; done
 python3-vt tools/validate.py 2>&1 | grep -v conda | grep -v "^valid" || true
